@@ -11,7 +11,7 @@ import numpy as np
 
 import impl
 
-RULE = ("12 documented block classes x random constructor arguments and solve-time parameters in their physical range "
+RULE = ("16 documented block classes (12 with the closed forms the property states, 4 with the generic claims only) x random constructor arguments and solve-time parameters in their physical range "
         "(40 draws per block, thorough 1000; every second draw re-evaluates the same instance at 1-3 further points, one parameter changed or dropped at a time; user index functions depend on every parameter they are given), argument types drawn from {int, float, numpy.float64, numpy.int64} where an "
         "integer value is physical; per draw: closed form, unitarity or passivity, power reciprocity, documented zero "
         "entries; per block and argument type: put()/connect by pin name, solve inside a solver, str(), print_S(), "
@@ -98,9 +98,24 @@ def blocks():
         expect=lambda a, p: (lambda wl: {"entries": {(0, 1): np.exp(1j * np.pi * (2 * neff(wl, p.get("R", a["R"]), p.get("w", a["w"]), p.get("pol", 0)) * float(a["L"]) / wl
                                                                                   + float(p.get("PS", 0.0)))), (0, 0): 0, (1, 1): 0},
                                          "unitary": True})(float(p.get("wl", a["wl"]))))
+    # documented models without a stated closed form in the property: generic claims only (power-reciprocal,
+    # reflection-free as documented; no gain where the model does not depend on a geometry) plus the uniform interface.
+    # FPR / FPRGaussian normalise by 1/sqrt(max(n, m)) and conserve power only near the star-coupler design condition
+    # of their geometry: whether a given (R, d1, d2, w) is "in the physical range" is not documented, so no gain claim.
+    B["Splitter1x2Gen"] = dict(make=lambda a: L.Splitter1x2Gen(cross=a["cross"], phase=a["phase"]), args={"cross": (0, 0.5), "phase": (-1, 1)}, params={},
+                               expect=lambda a, p: {"power": {(0, 1): 0.5 - float(a["cross"]), (0, 2): 0.5 - float(a["cross"]), (1, 2): float(a["cross"]),
+                                                              (2, 1): float(a["cross"]), (0, 0): 0, (1, 1): 0, (2, 2): 0}, "passive": True})
+    B["FPR_NxM"] = dict(make=lambda a: L.FPR_NxM(int(a["N"]), int(a["M"]), phi=a["phi"]), args={"N": (1, 4), "M": (1, 4), "phi": (0, 0.5)}, params={},
+                        expect=lambda a, p: {"power": {(0, 0): 0}, "passive": True})
+    B["FPR"] = dict(make=lambda a: L.FPR(int(a["N"]), int(a["M"]), a["R"], a["d1"], a["d1"]), args={"N": (1, 4), "M": (1, 4), "R": (50, 200), "d1": (1, 3)},
+                    params={"wl": (1, 2)}, required=("wl",), expect=lambda a, p: {"power": {(0, 0): 0}})
+    B["FPRGaussian"] = dict(make=lambda a: L.FPRGaussian(int(a["N"]), int(a["M"]), a["R"], a["d1"], a["d1"], a["w1"], a["w1"], 3.2),
+                            args={"N": (1, 4), "M": (1, 4), "R": (50, 200), "d1": (2, 4), "w1": (0.5, 1.5)}, params={"wl": (1, 2)}, required=("wl",),
+                            expect=lambda a, p: {"power": {(0, 0): 0}})
     return B
 
 
+INT_ONLY = {"N", "M"}
 INT_OK = {"L", "n", "wl", "ratio", "phase", "d", "angle", "loss", "c", "ref", "PS", "R", "w", "T", "pol"}
 
 
@@ -125,8 +140,10 @@ def check_point(ctx, name, spec, m, a, p, replay, k):
         ctx.violation(f"C09:solve-raised:{name}", f"{name}{sorted((k, type(v).__name__) for k, v in a.items())} raised {type(e).__name__}: {str(e)[:60]}", replay)
         return False
     ex = spec["expect"](a, p)
+    base = name
     if k:
         name = name + ":re-evaluated"
+    ok = True
     for (i, j), v in ex.get("entries", {}).items():
         if abs(S[i, j] - v) > 1e-9:
             ctx.violation(f"C09:closed-form:{name}", f"{name}: S[{i},{j}] = {S[i, j]:.6f}, documented value {complex(v):.6f} (args {a}, params {p})", replay)
@@ -139,13 +156,14 @@ def check_point(ctx, name, spec, m, a, p, replay, k):
     if ex.get("unitary") and np.max(np.abs(S.conj().T @ S - np.eye(n))) > 1e-9:
         ctx.violation(f"C09:not-unitary:{name}", f"{name} is documented lossless but S^H S != 1 (args {a}, params {p})", replay)
         return False
+    # the generic claims are reported independently of each other (signature = claim and block, whatever the evaluation number)
     if ex.get("passive") and np.linalg.norm(S, 2) > 1 + 1e-9:
-        ctx.violation(f"C09:gain:{name}", f"{name} shows gain (args {a})", replay)
-        return False
+        ctx.violation(f"C09:gain:{base}", f"{base} shows gain: largest singular value {np.linalg.norm(S, 2):.4f} (args {a}, params {p})", replay)
+        ok = False
     if np.max(np.abs(np.abs(S) - np.abs(S.T))) > 1e-9:
-        ctx.violation(f"C09:not-power-reciprocal:{name}", f"{name}: |S| != |S^T| (args {a})", replay)
-        return False
-    return True
+        ctx.violation(f"C09:not-power-reciprocal:{base}", f"{base}: |S| != |S^T| (args {a})", replay)
+        ok = False
+    return ok
 
 
 def check_interface(ctx, name, spec, a, replay):
@@ -187,7 +205,7 @@ def check_interface(ctx, name, spec, a, replay):
             L.putpin("OUT", (ost, "y"))
             for k, nm in enumerate(names[1:]):
                 L.putpin(f"P{k}", st.pin[nm])
-        kw = {"wl": 1.55} if name in ("Waveguide", "UserWaveguide", "TH_PhaseShifter") else {}
+        kw = {"wl": 1.55} if name in ("Waveguide", "UserWaveguide", "TH_PhaseShifter", "FPR", "FPRGaussian") else {}
         sol.solve(**kw)
         sol.inspect()
     stage("put()/connect by pin name + solve in a solver", f"C09:place-and-solve:{name}", place)
@@ -203,11 +221,14 @@ def draw(rng, spec, all_int=False):
         if k == "fixed":
             a[k] = rng.random() < 0.5
             continue
+        if k in INT_ONLY:
+            a[k], tys[k] = rng.randint(int(lo), int(hi)), "int"
+            continue
         v = pick(rng, lo, hi, p_int=1.0 if all_int else 0.35)
         a[k], tys[k] = typed(rng, v, k in INT_OK)
     p = {}
     for k, (lo, hi) in spec["params"].items():
-        if rng.random() < 0.6:
+        if k in spec.get("required", ()) or rng.random() < 0.6:
             v = pick(rng, lo, hi)
             p[k], _ = typed(rng, v, True)
     return a, p, tys
@@ -221,7 +242,7 @@ def draw_history(rng, spec, p):
     for _ in range(rng.randint(1, 3)):
         q = dict(cur)
         k = rng.choice(sorted(spec["params"]))
-        if k in q and rng.random() < 0.25:
+        if k in q and k not in spec.get("required", ()) and rng.random() < 0.25:
             del q[k]                                   # back to the block's own default
         else:
             lo, hi = spec["params"][k]
@@ -254,7 +275,7 @@ def run(ctx):
     fmt_monitor(ctx)
     n = ctx.budget(40, 1000)
     for name, spec in B.items():
-        for i in range(n):
+        for i in range(n if name not in ("FPRGaussian", "FPR") else max(8, n // 5)):
             if ctx.time_left() < 0:
                 return
             a, p, tys = draw(rng, spec, all_int=(i % 5 == 0))
